@@ -3,7 +3,7 @@
 // This source code is licensed under the MIT license found in the
 // LICENSE file in the root directory of this source tree.
 
-use alloc::{string::ToString, vec::Vec};
+use alloc::{format, string::ToString, vec::Vec};
 
 use math::{StarkField, ToElements};
 use utils::{ByteReader, ByteWriter, Deserializable, DeserializationError, Serializable};
@@ -147,6 +147,18 @@ impl Deserializable for Context {
 
         // read options
         let options = ProofOptions::read_from(source)?;
+
+        // make sure trace length and LDE domain size are within the limits enforced by the
+        // constructor
+        let trace_length = trace_info.length();
+        if trace_length > u32::MAX as usize
+            || trace_length * options.blowup_factor() > u32::MAX as usize
+        {
+            return Err(DeserializationError::InvalidValue(format!(
+                "trace length {trace_length} with blowup factor {} results in LDE domain which is too big",
+                options.blowup_factor()
+            )));
+        }
 
         Ok(Context { trace_info, field_modulus_bytes, options })
     }
